@@ -6021,7 +6021,9 @@ fn soundex(s: &str) -> String {
                 break;
             }
         }
-        if code != '0' {
+        // American Soundex: H and W are transparent, every other letter (vowels
+        // included) separates two letters with the same code.
+        if c != 'H' && c != 'W' {
             prev_code = code;
         }
     }
